@@ -109,6 +109,9 @@ func registerStubs(it *Interp) {
 	s["fmt.Printf"] = stubNoop2
 	s["fmt.Print"] = stubNoop2
 	s["crypto/md5.Sum"] = stubMD5Sum
+	s["crypto/md5.New"] = stubMD5New
+	s["(*crypto/md5.digest).Write"] = stubMD5Write
+	s["(*crypto/md5.digest).Sum"] = stubMD5SumMethod
 	s["github.com/valyala/bytebufferpool.Get"] = stubBBPGet
 	s["github.com/valyala/bytebufferpool.Put"] = stubBBPPut
 	s["(*github.com/valyala/bytebufferpool.Pool).Get"] = func(it *Interp, fr *frame, cc *ssa.CallCommon, a []Value) Value {
@@ -555,22 +558,42 @@ func stubMD5Sum(it *Interp, fr *frame, cc *ssa.CallCommon, a []Value) Value {
 	v := it.viewOf(a[0])
 	n := int(it.concretize(v.ln))
 	cells := make([]*Term, n)
-	allConst := true
 	for i := 0; i < n; i++ {
 		cells[i] = it.cellAtI(v, i)
-		if !cells[i].IsConst() {
+	}
+	d := it.md5Of(cells)
+	out := &Agg{Cells: make([]Value, 16)}
+	for i := range d {
+		out.Cells[i] = d[i]
+	}
+	return out
+}
+
+type md5App struct {
+	args []*Term
+	out  []*Term
+}
+
+// md5Of models MD5 as an uninterpreted function: concrete arguments are hashed for real,
+// symbolic ones get 16 fresh octets per distinct argument vector plus congruence
+// constraints (equal arguments => equal digests) against every earlier application of
+// the same length on this path.
+func (it *Interp) md5Of(cells []*Term) []*Term {
+	allConst := true
+	for _, c := range cells {
+		if !c.IsConst() {
 			allConst = false
 		}
 	}
-	out := &Agg{Cells: make([]Value, 16)}
+	out := make([]*Term, 16)
 	if allConst {
-		b := make([]byte, n)
+		b := make([]byte, len(cells))
 		for i, c := range cells {
 			b[i] = byte(c.Val)
 		}
 		d := md5.Sum(b)
 		for i := range d {
-			out.Cells[i] = it.St.Const(8, uint64(d[i]))
+			out[i] = it.St.Const(8, uint64(d[i]))
 		}
 		return out
 	}
@@ -579,23 +602,64 @@ func stubMD5Sum(it *Interp, fr *frame, cc *ssa.CallCommon, a []Value) Value {
 		fmt.Fprintf(&sb, "%d,", c.ID)
 	}
 	key := sb.String()
-	if it.job != nil {
-		if it.job.Funcs == nil {
-			it.job.Funcs = map[string]bool{}
-		}
+	if it.md5Keys == nil {
+		it.md5Keys = map[string]int{}
 	}
 	id, ok := it.md5Keys[key]
 	if !ok {
-		if it.md5Keys == nil {
-			it.md5Keys = map[string]int{}
-		}
 		id = len(it.md5Keys) + 1
 		it.md5Keys[key] = id
 	}
 	for i := 0; i < 16; i++ {
-		out.Cells[i] = it.St.Var(fmt.Sprintf("md5#%d[%d]", id, i), BV(8))
+		out[i] = it.St.Var(fmt.Sprintf("md5#%d[%d]", id, i), BV(8))
 	}
+	for _, e := range it.md5Apps {
+		if len(e.args) != len(cells) || e.out[0] == out[0] {
+			continue
+		}
+		same := it.St.T
+		for i := range cells {
+			same = it.St.And(same, it.St.Eq(cells[i], e.args[i]))
+		}
+		if same.IsFalse() {
+			continue
+		}
+		eq := it.St.T
+		for i := 0; i < 16; i++ {
+			eq = it.St.And(eq, it.St.Eq(out[i], e.out[i]))
+		}
+		it.pushPC(it.St.Implies(same, eq))
+	}
+	it.md5Apps = append(it.md5Apps, md5App{args: cells, out: out})
 	return out
+}
+
+// md5.New(): a *md5.digest whose written octets are accumulated by the engine
+func stubMD5New(it *Interp, fr *frame, cc *ssa.CallCommon, a []Value) Value {
+	t := it.namedType("crypto/md5", "digest")
+	o := it.newZeroObject(t, 1, "md5")
+	if it.md5Acc == nil {
+		it.md5Acc = map[*Object][]*Term{}
+	}
+	it.md5Acc[o] = nil
+	return &Iface{T: types.NewPointer(t), V: &Ptr{Obj: o, Off: it.c64(0)}}
+}
+
+func stubMD5Write(it *Interp, fr *frame, cc *ssa.CallCommon, a []Value) Value {
+	p := a[0].(*Ptr)
+	v := it.viewOf(a[1])
+	n := int(it.concretize(v.ln))
+	for i := 0; i < n; i++ {
+		it.md5Acc[p.Obj] = append(it.md5Acc[p.Obj], it.cellAtI(v, i))
+	}
+	return Tuple{it.c64(int64(n)), it.nilError()}
+}
+
+func stubMD5SumMethod(it *Interp, fr *frame, cc *ssa.CallCommon, a []Value) Value {
+	p := a[0].(*Ptr)
+	in := a[1].(*Slice)
+	d := it.md5Of(it.md5Acc[p.Obj])
+	return it.appendOp(in, it.newByteSlice(d), types.Typ[types.Uint8])
 }
 
 // ---------------------------------------------------------------------------
